@@ -27,10 +27,13 @@ META = {
             "(Lemmas/EvalFrame*.lean). 'Results are a function of the session alone' holds by construction of the specification "
             "(stated, trivial). T01.4 operand order, about the compiler model Vm/Compile.lean: application code = operand codes "
             "left to right each followed by PUSH, then argc, operator code, CALL/TCALL. Spec answers at the witnesses of the three "
-            "known findings are proved by kernel evaluation. NOT proved: T01.2 (derived forms: evaluating the expansion that the "
-            "R7RS matcher produces from the prelude's macro rules equals native evaluation) — it needs fuel monotonicity of "
-            "Spec.Eval (an expansion nests deeper than the native form, so the equality is only up to fuel), which is not proved; "
-            "no translator of prelude.scm yet; T01.3 (compiler correctness: compile+run of Vm/Compile.lean + Vm/Machine.lean "
+            "known findings are proved by kernel evaluation. T01.2 is HALF done: translate/prelude.py regenerates Gen/Prelude.lean "
+            "from prelude.scm on every run and Lemmas/EvalPrelude.lean proves (kernel evaluation) that the R7RS matcher of C17 "
+            "expands schematic uses of when, unless, begin, and, or, let and case-with-a-final-=> clause with the CURRENT prelude "
+            "rules to the expected core forms (so a change of a rule's shape or order breaks a proof); NOT proved: that "
+            "evaluating those expansions equals evaluating the form natively in Spec.Eval — it needs fuel monotonicity of "
+            "Spec.Eval (an expansion nests deeper than the native form, so the equality is only up to fuel); cond, let*, letrec, "
+            "named let, delay are not covered even by the first half; T01.3 (compiler correctness: compile+run of Vm/Compile.lean + Vm/Machine.lean "
             "agrees with Spec.Eval) is not stated. The agreement of the REAL parse+expand+compile+run pipeline with Spec.Eval — "
             "i.e. the first sentence of the property — is carried ONLY by the differential correspondence (generated sessions, "
             "see coverage.streams: feature histogram, named combinations, failure classes), and the fresh-VM / independence "
@@ -57,6 +60,14 @@ THEOREMS = [
     "Marwood.Proofs.C01.dotted_unquote_spec_witness",
     "Marwood.Proofs.C01.toplevel_begin_spec_witness",
     "Marwood.Proofs.C01.or_capture_spec_witness",
+    "Marwood.Spec.Eval.Prelude.every_macro_is_readable",
+    "Marwood.Spec.Eval.Prelude.when_expansion",
+    "Marwood.Spec.Eval.Prelude.unless_expansion",
+    "Marwood.Spec.Eval.Prelude.begin_expansion",
+    "Marwood.Spec.Eval.Prelude.and_expansions",
+    "Marwood.Spec.Eval.Prelude.or_expansions",
+    "Marwood.Spec.Eval.Prelude.let_expansion",
+    "Marwood.Spec.Eval.Prelude.case_final_arrow_expansion",
 ]
 
 FIXED_NOTE = ("four defects repaired in /repo (fix: 9750711 macros expanded inside quasiquoted data, f2dec47 free variables of "
